@@ -8,6 +8,11 @@ def sh(cmd, **kw):
     return subprocess.run(cmd, shell=True, capture_output=True, text=True, **kw)
 if sh("git -C /repo status --porcelain").stdout.strip():
     print("dirty /repo"); sys.exit(2)
+# evidence files must come from the unchanged tree: keep them aside and put them back
+import shutil
+bak = V + "/build/evidence.bak"
+shutil.rmtree(bak, ignore_errors=True)
+shutil.copytree(V + "/evidence", bak)
 allp = "--all" in sys.argv
 only = [a for a in sys.argv[1:] if not a.startswith("--")]
 pids = sorted(json.loads(l)["id"] for l in open(V + "/properties.jsonl"))
@@ -33,6 +38,8 @@ for d in sorted(glob.glob(V + "/seeded/*/")):
     finally:
         sh("git -C /repo checkout -- .")
     print(rows[-1], flush=True)
+shutil.rmtree(V + "/evidence")
+shutil.copytree(bak, V + "/evidence")
 json.dump(rows, open(V + "/seeded/matrix.json", "w"), indent=1)
 # leave binaries built from the restored tree behind
 sys.path.insert(0, V + "/lib")
